@@ -271,22 +271,54 @@ def batch_job(job):
         arch = TSCE.FormulaArchive(**{"AST_node_array": {"AST_node": nodes}})
         key = model._formulas.lookup_key(table_id, arch)
         tb.rows()[i][1]._formula_id = key
-        expect.append((prog, render, lits))
+        expect.append((prog, render, lits, 1))
+        if "r" in prog and i % 2 == 0:
+            # the same stored expression shared by the neighbouring cell of the row (what "fill right" produces): its relative
+            # references resolve against the other host cell
+            tb.write(i, 2, 1.0)
+            tb.rows()[i][2]._formula_id = key
+            refs = [nd for nd in nodes if nd["AST_node_type"] == "CELL_REFERENCE_NODE"]
+            lits2, k = [], 0
+            for lt in lits:
+                if lt[0] == "r":
+                    nd = refs[k]
+                    k += 1
+                    r_abs, c_abs = nd["AST_row"]["absolute"], nd["AST_column"]["absolute"]
+                    tr = nd["AST_row"]["row"] if r_abs else i + nd["AST_row"]["row"]
+                    tc = nd["AST_column"]["column"] if c_abs else 2 + nd["AST_column"]["column"]
+                    lits2.append(("r", ("$" if c_abs else "") + wb.colname(tc) + ("$" if r_abs else "") + str(tr + 1)))
+                else:
+                    lits2.append(lt)
+            expect.append((prog, render, lits2, 2))
     path = os.path.join(scratch, "c08-%d-%d.numbers" % (os.getpid(), idx))
     out = []
     try:
         doc.save(path)
         t2 = Document(path).sheets[0].tables[0]
-        for i, (prog, render, lits) in enumerate(expect):
-            c = t2.cell(i, 1)
+        order = list(range(len(expect)))
+        # rows with a shared expression are read right-to-left in half of the cases
+        for j in range(len(order) - 1):
+            if expect[j + 1][3] == 2 and (j // 2) % 2 == 1:
+                order[j], order[j + 1] = order[j + 1], order[j]
+        rowof, r = [], -1
+        for e in expect:
+            if e[3] == 1:
+                r += 1
+            rowof.append(r)
+        res = {}
+        for j in order:
+            (prog, render, lits, col) = expect[j]
+            i = rowof[j]
+            c = t2.cell(i, col)
             try:
                 a = c.formula
                 b = c.formula
-                out.append((prog, render, lits, a, b, ""))
+                res[j] = (prog, render, lits, a, b, "")
             except Exception as e:  # noqa: BLE001
-                out.append((prog, render, lits, None, None, "%s:%s" % (type(e).__name__, str(e)[:80])))
+                res[j] = (prog, render, lits, None, None, "%s:%s" % (type(e).__name__, str(e)[:80]))
+        out = [res[j] for j in range(len(expect))]
     except Exception as e:  # noqa: BLE001
-        out = [(p, r, l, None, None, "save/open %s:%s" % (type(e).__name__, str(e)[:80])) for p, r, l in expect]
+        out = [(p, r, l, None, None, "save/open %s:%s" % (type(e).__name__, str(e)[:80])) for p, r, l, _ in expect]
     if os.path.exists(path):
         os.remove(path)
     return out
